@@ -73,6 +73,34 @@ Theorem C16_terminates :
 Proof. exact all_reported. Qed.
 Print Assumptions C16_terminates.
 
+(* the drain loop `while let Some(action) = engine.next_action()` terminates: an iteration that finds
+   an action for query q0 strictly decreases q0's weight (3 + candidates + queued records for a
+   lookup, 2 for put-to-peers, 1 for a send phase, 0 once removed) and leaves every other query
+   untouched; so the drained state (`quiescent`) is reached after at most the sum of the weights *)
+Theorem C16_drain_progress :
+  forall s q0 q,
+  snd (serve s q0) = true ->
+  (q <> q0 -> aget q (eng (fst (fst (serve s q0)))) = aget q (eng s)) /\
+  (qw (aget q0 (eng (fst (fst (serve s q0))))) < qw (aget q0 (eng s)))%nat.
+Proof. exact serve_progress. Qed.
+Print Assumptions C16_drain_progress.
+
+(* quorum honesty: a PutRecordSuccess / AddProviderSuccess for q is only emitted when, for at least
+   clamp(requested quorum, number of targets) DISTINCT target peers of the send phase, an executor
+   future working for q has reported a completed send (`sends` collects exactly the SendSuccess /
+   AssumeSendSuccess / ReadSuccess completions of futures carrying a query id) *)
+Theorem C16_quorum_honest :
+  forall g m es q,
+  fresh_ids [] es ->
+  let outs := snd (run g (st0 m) es) in
+  In (OPutSuccess q) outs \/ In (OProvSuccess q) outs ->
+  exists targets qr S,
+    find_quorum q es = Some qr /\ In (OTrack q targets) outs /\ NoDup S /\
+    clamp qr (N.of_nat (length targets)) <= N.of_nat (length S) /\
+    (forall p, In p S -> In (q, p) (sends g (st0 m) es) /\ In p targets).
+Proof. exact quorum_honest. Qed.
+Print Assumptions C16_quorum_honest.
+
 (* the shipped parallelism factor and executor timeouts satisfy what is assumed above *)
 Theorem C16_default_config :
   1 <= V.gen.Consts.PARALLELISM_FACTOR /\ 0 < V.gen.Consts.KAD_READ_TIMEOUT_SECS /\
